@@ -863,9 +863,19 @@ async def packet_case(phase: str, role: str, seed: str, explicit: Optional[List[
 # ---------------------------------------------------------------------------
 # leg (i) continued: numeric extremes through the channel-open parameters (public API options on the hostile side)
 
-async def window_case(role: str, window: int, pktsize: int, nbytes: int = 300) -> Dict[str, Any]:
-    """The hostile peer advertises (window, max packet size); the target's application then writes nbytes."""
-    label = f'open window={window} max_pktsize={pktsize} then target writes {nbytes} bytes'
+async def window_case(role: str, window: int, pktsize: int, nbytes: int = 300, dropbear: bool = False) -> Dict[str, Any]:
+    """The hostile peer advertises (window, max packet size); the target's application then writes nbytes.
+    `dropbear`: the peer's identification names dropbear and compression is on, so the target applies its
+    work-around `max packet size -= 1` (an advertised 0 becomes -1, an advertised 1 becomes 0)."""
+    label = f'open window={window} max_pktsize={pktsize}{" (peer says dropbear, zlib)" if dropbear else ""} ' \
+            f'then target writes {nbytes} bytes'
+    extra_s: Dict[str, Any] = {}
+    extra_c: Dict[str, Any] = {}
+    if dropbear:
+        extra_s = dict(compression_algs=['zlib'])
+        extra_c = dict(compression_algs=['zlib'])
+        (extra_c if role == 'server' else extra_s)['client_version' if role == 'server' else 'server_version'] = \
+            'dropbear_2022.83'
     if role == 'server':
         # hostile client opens the session; the server application writes
         async def handler(process: Any) -> None:
@@ -874,9 +884,12 @@ async def window_case(role: str, window: int, pktsize: int, nbytes: int = 300) -
                 await asyncio.sleep(3600)
             except BaseException:       # noqa: B902
                 pass
-        case = await setup_enc('server', 'post-auth-open', server_opts=dict(process_factory=handler))
+        case = await setup_enc('server', 'post-auth-open', server_opts=dict(process_factory=handler, **extra_s),
+                               client_opts=extra_c or None)
     else:
-        case = await setup_enc('client', 'post-auth-open', server_opts=dict(window=window, max_pktsize=pktsize))
+        case = await setup_enc('client', 'post-auth-open',
+                               server_opts=dict(window=window, max_pktsize=pktsize, **extra_s),
+                               client_opts=extra_c or None)
     try:
         case.phase = 'channel-open'
         case.arm_output_budget(nbytes * 8)
